@@ -160,6 +160,16 @@ def scn(params):
                     c2c(tt + rng.choice([0, 2000, 30000]), 0, 1)
                 tt += rng.choice([0, 0, 5000, 100000, 400000, 1000000, 2500000])
             st["bystander_frames"] = nby[0]
+            if by and params.get("by_vanish"):
+                # the bystander (the later, higher-numbered session) is in the middle of a download when its machine is
+                # suspended: packets for it pile up at the server; the judged session must not be held up by that
+                tv = k.now + US // 2 + rng.choice([2, 5, 9]) * US
+                for j in range(7):
+                    fr = tunnelscn.pick_frame(t, rng, "srv", (C2C << 20) | (5000 + j), 1, sizes=[600, 1000, 1134])
+                    k.at(tv + j * 1000, k.offer_tun, "srv", fr, None)
+                k.at(tv + 3000, k.freeze, t.clients[1].name)
+                st["bystander_vanished"] = 1
+                st["t_vanish"] = tv + 3000
             st["t_clean"] = t.t0
             st["last_offer"] = tt
             return tt + 90 * US
@@ -266,6 +276,7 @@ def scn(params):
             qfull = False
             if len(t.clients) > 1:
                 out["stats"]["bystander_frames"] = st.get("bystander_frames", 0)
+                out["stats"]["bystander_vanished_runs"] = st.get("bystander_vanished", 0)
                 for ev in k.log:
                     if ev[1] == "wait" and ev[2] == "srv" and "rows" in ev[3]:
                         if any(r.get("outpacketq_filled", 0) >= 4 for r in ev[3]["rows"]):
@@ -288,6 +299,29 @@ def scn(params):
                             key += ":" + cause
                             why = " (the packet arrived in the answer to a query that was no longer among the client's 3 most recent and was discarded unread)"
                     out["violations"].append((key, "clean path, %sstream: %s%s" % (d, prob[1], why), wit))
+            if st.get("bystander_vanished") and not out["violations"]:
+                # the other session stopped draining in mid-download: the judged one, on a perfect path, must not wait for it.
+                # Every packet offered for it after that moment is delivered within 40 s of the offer (alone it takes a few).
+                wtime = {}
+                for ev in k.log:
+                    if ev[1] == "tun_write" and ev[2] == cname:
+                        i = proto.frame_ident(ev[3]["data"])
+                        if i is not None and i not in wtime:
+                            wtime[i] = ev[0]
+                late = []
+                for ev in k.log:
+                    if ev[1] == "tun_offer" and ev[2] == "srv":
+                        f = ev[3]["data"]
+                        i = proto.frame_ident(f)
+                        if i is None or (i >> 20) in (0xDEAD, C2C) or not down_ok(f) or ev[0] < st["t_vanish"] or ev[0] > st["last_offer"] + US:
+                            continue
+                        out["stats"]["offers_judged_after_bystander_vanished"] = out["stats"].get("offers_judged_after_bystander_vanished", 0) + 1
+                        if i not in wtime or wtime[i] - ev[0] > 40 * US:
+                            late.append((i & 0xFFFFF, None if i not in wtime else (wtime[i] - ev[0]) // 1000))
+                if late and not qfull:
+                    out["violations"].append(("C02:clean-path:down:held-up-by-another-session",
+                                              "after another session stopped draining its queue, %d packets offered for the judged session on a perfect path took more than 40 s (or never arrived): %r"
+                                              % (len(late), late[:4]), wit))
             nr_d = out["stats"]["clean_down_delivered"]
             nr_u = out["stats"]["clean_up_delivered"]
             if nr_d >= 8 and nr_u >= 8:
@@ -362,7 +396,7 @@ def run(ctx):
             # so), after that the scenario goes on as usual
             cfg.update(slow_start=rng.choice([1100000, 1120000, 1150000]), qtype="NULL", raw=False, interval=None, pred=False,
                        m=None, downenc=None, lazy=1, M=rng.choice([200, 255]))
-        plist.append({"idx": i, "seed": ctx.seed * 100000 + i, "cfg": cfg, "mode": mode})
+        plist.append({"idx": i, "seed": ctx.seed * 100000 + i, "cfg": cfg, "mode": mode, "by_vanish": (i // 12) % 2 == 0})
     if ctx.replay:
         plist = [ctx.replay["witness"]["params"]]
     res.min_evaluations = max(1, len(plist) // 2)
